@@ -106,6 +106,31 @@ fn main() {
     println("end");
 }
 `,
+	// comparisons with an unordered operand: every ordering comparison with not-a-number is false, so "not less" is
+	// not "greater or equal"
+	"unordered-comparisons": `fn pick(a: float, b: float) -> str {
+    if a < b { "lt" } else if a >= b { "ge" } else { "unordered" }
+}
+fn main() {
+    let nan = (0.0 - 1.0) ** 0.5;
+    let one = 1.0;
+    if nan < one { println("nan < 1"); } else { println("not nan < 1"); }
+    if nan <= one { println("nan <= 1"); } else { println("not nan <= 1"); }
+    if nan > one { println("nan > 1"); } else { println("not nan > 1"); }
+    if nan >= one { println("nan >= 1"); } else { println("not nan >= 1"); }
+    if one < nan { println("1 < nan"); } else { println("not 1 < nan"); }
+    if one >= nan { println("1 >= nan"); } else { println("not 1 >= nan"); }
+    if nan == nan { println("nan == nan"); } else { println("nan != nan"); }
+    if nan != nan { println("differs"); } else { println("same"); }
+    println(pick(nan, one), pick(one, nan), pick(one, one), pick(0.5, one));
+    let k = 0;
+    while k < 3 && !(nan < one) { k += 1; }
+    println("k", k);
+    let r = if nan > 0.0 { 1 } else { 2 };
+    let q = nan <= 2.0;
+    println(r, q, nan >= nan);
+}
+`,
 	"guarded": `fn find(limit: int) -> int {
     let acc = 0;
     for i in 0..20 {
